@@ -219,7 +219,30 @@ func ConcatTagValues(tagValues []string) string {
 	if len(tagValues) == 0 {
 		return ""
 	}
-	return strings.Join(tagValues, ",")
+	needEscape := false
+	for _, tagValue := range tagValues {
+		if strings.ContainsAny(tagValue, ",\\") {
+			needEscape = true
+			break
+		}
+	}
+	if !needEscape {
+		return strings.Join(tagValues, ",")
+	}
+	// NOTE: a tag value may contain the separator, escape it(and the escape char), else it cannot be split again.
+	var b strings.Builder
+	for idx, tagValue := range tagValues {
+		if idx > 0 {
+			b.WriteByte(',')
+		}
+		for i := 0; i < len(tagValue); i++ {
+			if tagValue[i] == ',' || tagValue[i] == '\\' {
+				b.WriteByte('\\')
+			}
+			b.WriteByte(tagValue[i])
+		}
+	}
+	return b.String()
 }
 
 // SplitTagValues splits the string of tag values to array
@@ -227,5 +250,23 @@ func SplitTagValues(tags string) []string {
 	if tags == "" {
 		return []string{}
 	}
-	return strings.Split(tags, ",")
+	if !strings.Contains(tags, "\\") {
+		return strings.Split(tags, ",")
+	}
+	// has escaped chars(see ConcatTagValues)
+	var tagValues []string
+	var b strings.Builder
+	for i := 0; i < len(tags); i++ {
+		switch {
+		case tags[i] == '\\' && i+1 < len(tags):
+			i++
+			b.WriteByte(tags[i])
+		case tags[i] == ',':
+			tagValues = append(tagValues, b.String())
+			b.Reset()
+		default:
+			b.WriteByte(tags[i])
+		}
+	}
+	return append(tagValues, b.String())
 }
